@@ -21,6 +21,7 @@ func runC05(p *Prog, r *Report) {
 	c05Unpackers(p, r)
 	c05Combinators(p, r)
 	c05Relays(p, r)
+	c05HeaderSlots(p, r)
 	c05DeclaredHeadrooms(p, r)
 	// R8: the size limit follows the client's address (shared analysis with C11-R6)
 	r.Rule("C05-R8", "the packet size limit follows the client: in the session relays' downlinks, when the client's address record changes, everything computed from the address when the session started (the maximum packet size for the address family) is recomputed on every path through the update")
@@ -1033,4 +1034,201 @@ func c05DeclaredHeadrooms(p *Prog, r *Report) {
 	}
 	r.Count("declared_headroom_pairs", n)
 	r.Floor(rule, 3)
+}
+
+// c05HeaderSlots (R9): a message header writer fills exactly the slot it is handed.
+func c05HeaderSlots(p *Prog, r *Report) {
+	const rule = "C05-R9"
+	r.Rule(rule, "the message header exactly fills its slot: where an ss2022 packer hands b[S:E] to a header writer together with a padding length and an address, E - S is the writer's fixed part (the constant offset at which the writer puts the address, less the padding) + that padding + the socks5 length function applied to the very address handed over, and the length function is the sibling (LengthOfAddrFromX) of the address writer the header writer uses (WriteAddrFromX)")
+	pkg := p.Pkg("ss2022")
+	n := 0
+	p.AllFuncs(pkg, func(fc *FuncCtx) {
+		if baseFuncName(fc) != "PackInPlace" {
+			return
+		}
+		info := fc.Info()
+		for _, cs := range fc.AllCalls() {
+			if cs.Fn == nil || cs.Fn.Pkg() == nil || cs.Fn.Pkg().Path() != mp("ss2022") || len(cs.Call.Args) < 3 {
+				continue
+			}
+			wf := p.CtxOfObj(cs.Fn)
+			if wf == nil || wf.Body == nil {
+				continue
+			}
+			// the header writer: a function that writes an address parameter with socks5.WriteAddrFrom*
+			var aw *CallSite
+			for _, c2 := range wf.AllCalls() {
+				if c2.Fn != nil && c2.Fn.Pkg() != nil && c2.Fn.Pkg().Path() == mp("socks5") && strings.HasPrefix(c2.Fn.Name(), "WriteAddrFrom") && len(c2.Call.Args) == 2 {
+					c := c2
+					aw = &c
+				}
+			}
+			if aw == nil {
+				continue
+			}
+			n++
+			key := fc.Name + ":" + cs.Fn.Name()
+			addrParam, padParam := -1, -1
+			var fixed int64 = -1
+			if ao := objOf(wf.Info(), aw.Call.Args[1]); ao != nil {
+				for i := 0; i < 8; i++ {
+					if wf.ParamObj(i) == ao {
+						addrParam = i
+					}
+				}
+			}
+			if sl, ok := ast.Unparen(aw.Call.Args[0]).(*ast.SliceExpr); ok && sl.Low != nil && sl.High == nil && objOf(wf.Info(), sl.X) == wf.ParamObj(0) {
+				off := linOf(p, wf, sl.Low)
+				for i := 1; i < 8; i++ {
+					po := wf.ParamObj(i)
+					if po == nil {
+						continue
+					}
+					if c, has := off[po.Name()]; has && c == 1 && len(off) == 2 {
+						padParam = i
+						fixed = off[""]
+					}
+				}
+			}
+			if addrParam < 0 || padParam < 0 || fixed <= 0 || addrParam >= len(cs.Call.Args) || padParam >= len(cs.Call.Args) {
+				r.Fail(rule, key, cs.Pos(), "undecided: the header writer does not put its address parameter at <constant> + <padding parameter> of its buffer")
+				continue
+			}
+			sl, ok := ast.Unparen(cs.Call.Args[0]).(*ast.SliceExpr)
+			if !ok || sl.Low == nil || sl.High == nil {
+				r.Fail(rule, key, cs.Pos(), "undecided: the header slot is not b[start:end]")
+				continue
+			}
+			rest := linOf(p, fc, sl.High).add(linOf(p, fc, sl.Low), -1).add(linOf(p, fc, cs.Call.Args[padParam]), -1).add(linForm{"": fixed}, -1)
+			addrArg := cs.Call.Args[addrParam]
+			family := strings.TrimPrefix(aw.Fn.Name(), "WriteAddrFrom")
+			want := ""
+			for _, c2 := range fc.AllCalls() {
+				if c2.Fn != nil && c2.Fn.Pkg() != nil && c2.Fn.Pkg().Path() == mp("socks5") && c2.Fn.Name() == "LengthOfAddrFrom"+family && len(c2.Call.Args) == 1 && objOf(info, c2.Call.Args[0]) != nil && objOf(info, c2.Call.Args[0]) == objOf(info, addrArg) {
+					nc := &normCtx{p: p, fc: fc, subst: map[types.Object]string{}, at: c2.V}
+					if ro := fc.RecvObj(); ro != nil {
+						nc.subst[ro] = "recv"
+					}
+					want = nc.expr(c2.Call)
+				}
+			}
+			okSlot := want != "" && len(rest) == 1 && rest[want] == 1
+			r.Check(okSlot, rule, key, cs.Pos(), fmt.Sprintf("slot length = %d + padding + %s", fixed, want), fmt.Sprintf("the header slot is %d + padding + [%s] long, but the writer puts socks5.%s(%s) there: for an address whose written length differs (an IPv4-mapped source, a domain name) a hole of stale buffer bytes or an overlap with the payload is sealed into the packet", fixed, rest.String(), aw.Fn.Name(), exprStr(addrArg)))
+		}
+	})
+	r.Count("header_writer_calls", n)
+	// the length function and the writer of the IP family agree: along every combination of
+	// outcomes of the tests on the address, both report the same number of bytes
+	sp := p.Pkg("socks5")
+	_ = sp
+	wr := p.Func("socks5", "", "WriteAddrFromAddrPort")
+	ln := p.Func("socks5", "", "LengthOfAddrFromAddrPort")
+	wt, wok := c05OutcomeTable(p, wr, 1, 0)
+	lt, lok := c05OutcomeTable(p, ln, 0, 0)
+	same := wok && lok && len(wt) == len(lt) && len(wt) > 1
+	detail := ""
+	for k, v := range wt {
+		if lt[k] != v {
+			same = false
+			detail = fmt.Sprintf("for %s the writer reports %s and the length function %q", k, v, lt[k])
+		}
+	}
+	r.Check(same, rule, "socks5.LengthOfAddrFromAddrPort~WriteAddrFromAddrPort", p.posStr(ln.Body.Pos()), fmt.Sprintf("%d outcome combinations, same byte count in both", len(wt)), "the length function and the writer disagree about how many bytes an address takes: "+detail+" — every packer that reserves the one and writes the other leaves a hole or overlaps the payload")
+	r.Floor(rule, 3)
+}
+
+// c05OutcomeTable walks every acyclic path of fc, recording the outcomes of the conditions that
+// mention parameter addrIdx (normalised with the parameter called "addr"), and maps each
+// combination to the linear form of result resIdx at the return. ok=false when the function
+// loops, a result is not a constant, or a combination maps to two values.
+func c05OutcomeTable(p *Prog, fc *FuncCtx, addrIdx, resIdx int) (map[string]string, bool) {
+	out := map[string]string{}
+	ok := true
+	po := fc.ParamObj(addrIdx)
+	if po == nil {
+		return nil, false
+	}
+	resObj := fc.ResultObj(resIdx)
+	isResDef := map[int]bool{}
+	if resObj != nil {
+		for _, d := range fc.Defs(resObj) {
+			isResDef[d] = true
+		}
+	}
+	lastDef := -1
+	var walk func(v int, conds []string, seen map[int]bool)
+	walk = func(v int, conds []string, seen map[int]bool) {
+		if !ok {
+			return
+		}
+		if isResDef[v] {
+			saved := lastDef
+			lastDef = v
+			defer func() { lastDef = saved }()
+		}
+		if seen[v] {
+			ok = false
+			return
+		}
+		seen[v] = true
+		defer delete(seen, v)
+		vx := fc.G.V[v]
+		if v == fc.G.Exit {
+			return
+		}
+		isRet := false
+		for _, e := range vx.Succs {
+			if e.To == fc.G.Exit {
+				isRet = true
+			}
+		}
+		if isRet {
+			var lf linForm
+			if rs, isRS := vx.Node.(*ast.ReturnStmt); isRS && len(rs.Results) > resIdx {
+				lf = linOf(p, fc, rs.Results[resIdx])
+			} else if lastDef >= 0 {
+				// bare return of a named result: the value it was last given on this path
+				if as, isAs := fc.G.V[lastDef].Node.(*ast.AssignStmt); isAs && len(as.Lhs) == len(as.Rhs) && as.Tok == token.ASSIGN {
+					for i, l := range as.Lhs {
+						if objOf(fc.Info(), l) == resObj {
+							lf = linOf(p, fc, as.Rhs[i])
+						}
+					}
+				}
+			}
+			if lf == nil {
+				ok = false
+				return
+			}
+			if len(lf) > 1 || (len(lf) == 1 && lf[""] == 0) {
+				ok = false
+				return
+			}
+			cs := append([]string{}, conds...)
+			sort.Strings(cs)
+			k := strings.Join(cs, " & ")
+			val := lf.String()
+			if prev, has := out[k]; has && prev != val {
+				ok = false
+			}
+			out[k] = val
+			return
+		}
+		for _, e := range vx.Succs {
+			nc := conds
+			if vx.Kind == VCond && (e.Label == LTrue || e.Label == LFalse) {
+				nctx := &normCtx{p: p, fc: fc, subst: map[types.Object]string{po: "addr"}, at: v}
+				cstr := nctx.expr(vx.Node.(ast.Expr))
+				if strings.Contains(cstr, "addr") {
+					if e.Label == LFalse {
+						cstr = "!" + cstr
+					}
+					nc = append(append([]string{}, conds...), cstr)
+				}
+			}
+			walk(e.To, nc, seen)
+		}
+	}
+	walk(fc.G.Entry, nil, map[int]bool{})
+	return out, ok
 }
